@@ -1,15 +1,82 @@
-import PermutaModel.Model.C07
+import PermutaModel.Lemmas.C07Sched
+import PermutaModel.Generated.Tables
 
 /-!
-# C07 — concurrent queries are correct under every interleaving
+# C07 — concurrent queries on a permutation class are correct under every interleaving
+
+`Model.C07.step` is the small-step semantics of threads executing `Av._get_level` under the lock
+discipline found in the source (`Generated.lockDiscipline`).  The theorems quantify over every
+number of threads, every assignment of levels to fetch and **every schedule**.  They are generic
+in the sequential theory: `C07L.SeqOK spec Good` is the statement about `_ensure_level` that
+`Props/C02.lean` provides for the cache invariant.
 -/
 namespace C07
-open Model.C07
+open Model.C02 Model.C07 C07L
 
-/-- a blocked thread (lock held by someone else) stutters -/
+/-- the source still has the lock discipline the theorems below are about: every `_ensure_level`
+    call is inside `with Av._CACHE_LOCK`, the result is read after the block, and the lock is a
+    class attribute shared by all instances.  (Regenerated from permset.py on every run; removing
+    or narrowing the critical section breaks this obligation.) -/
+theorem lock_discipline_matches_source : Generated.lockDiscipline = (true, true, true) := by decide
+
+/-- a thread that wants the lock while another holds it does not move (blocking is a stutter) -/
 theorem blocked_stutters (s : Sys) (tid : Nat) (t : Thread) (n : Nat) (rest : List Nat) (holder : Nat)
     (ht : s.threads[tid]? = some t) (hp : t.phase = .idle) (htd : t.todo = n :: rest)
     (hl : s.lock = some holder) : step s tid = s := by
   unfold step; simp [ht, hp, htd, hl]
+
+/-- **mutual exclusion**: in every reachable state at most one thread is inside the critical section,
+    and it is the lock holder -/
+theorem mutex {spec Good} (hs : SeqOK spec Good) (o : AvObj) (ho : Good o) (todos : List (List Nat))
+    (sched : List Nat) (i j : Nat) (ti tj : Thread) (ni nj : Nat) (pi pj : List AvObj)
+    (hi : (run (initSys o todos) sched).threads[i]? = some ti) (hpi : ti.phase = .holding ni pi)
+    (hj : (run (initSys o todos) sched).threads[j]? = some tj) (hpj : tj.phase = .holding nj pj) :
+    i = j ∧ (run (initSys o todos) sched).lock = some i := by
+  obtain ⟨base, hinv⟩ := run_inv hs sched (init_inv hs o ho todos)
+  have h1 := (hinv.thr i ti hi).1; rw [hpi] at h1
+  have h2 := (hinv.thr j tj hj).1; rw [hpj] at h2
+  have : some i = some j := h1.1.symm.trans h2.1
+  exact ⟨Option.some.inj this, h1.1⟩
+
+/-- **every visible level is right at every moment**, including while another thread is in the middle
+    of building or compacting: a reader can never observe a partially built level -/
+theorem keys_always_ok {spec Good} (hs : SeqOK spec Good) (o : AvObj) (ho : Good o)
+    (todos : List (List Nat)) (sched : List Nat) :
+    VisibleOK spec (run (initSys o todos) sched).obj := by
+  obtain ⟨base, hinv⟩ := run_inv hs sched (init_inv hs o ho todos)
+  exact hinv.vis
+
+/-- **main theorem**: for every number of threads, every assignment of levels to fetch and every
+    schedule, no thread ever fails (no `KeyError`/`AssertionError` from `valid_insertions`), and every
+    level a thread has read is the specification's level (as a set with multiplicities) -/
+theorem concurrent_correct {spec Good} (hs : SeqOK spec Good) (o : AvObj) (ho : Good o)
+    (todos : List (List Nat)) (sched : List Nat) (tid : Nat) (t : Thread)
+    (ht : (run (initSys o todos) sched).threads[tid]? = some t) :
+    (∀ e, t.phase ≠ .failed e) ∧ ∀ g ∈ t.got, g.2.Perm (spec g.1) := by
+  obtain ⟨base, hinv⟩ := run_inv hs sched (init_inv hs o ho todos)
+  have h := hinv.thr tid t ht
+  refine ⟨?_, h.2⟩
+  intro e he
+  have := h.1; rw [he] at this; exact this
+
+/-- whenever the lock is free the shared object is in a good (sequentially reachable) state, so a
+    later sequential user of the class sees a consistent cache -/
+theorem quiescent_good {spec Good} (hs : SeqOK spec Good) (o : AvObj) (ho : Good o)
+    (todos : List (List Nat)) (sched : List Nat)
+    (hfree : (run (initSys o todos) sched).lock = none) : Good (run (initSys o todos) sched).obj := by
+  obtain ⟨base, hinv⟩ := run_inv hs sched (init_inv hs o ho todos)
+  rw [hinv.free hfree]; exact hinv.good
+
+/-- necessity / non-vacuity of the model: *without* mutual exclusion the same machine reaches a state
+    in which a thread reads an empty level 3 of `Av(01)` (which really contains `210`): thread 0 builds
+    up to level 2, thread 1 up to level 3, and thread 0's stale write hides level 3 again. -/
+theorem nolock_exhibits_failure :
+    ((runNoLock (initSys (freshObj (.classical [[0,1]])) [[2], [3]]) [0, 0, 1, 1, 1, 1, 1, 1, 0, 1]).threads.map
+      (·.got)) = [[], [(3, [])]] := by decide
+
+/-- with the lock, the same two threads under the analogous schedule both get the right levels -/
+example :
+    ((run (initSys (freshObj (.classical [[0,1]])) [[2], [3]]) [0, 0, 1, 1, 0, 0, 0, 0, 1, 1, 1, 1, 1, 1, 1, 1, 1]).threads.map
+      (·.got)) = [[(2, [[1,0]])], [(3, [[2,1,0]])]] := by decide
 
 end C07
